@@ -10,6 +10,7 @@ import (
 	"time"
 
 	"github.com/taskctl/taskctl/pkg/runner"
+	"github.com/taskctl/taskctl/pkg/scheduler"
 	"github.com/taskctl/taskctl/pkg/task"
 	"github.com/taskctl/taskctl/pkg/variables"
 )
@@ -527,6 +528,20 @@ func genRunnerSpecs(tier string, rng *rand.Rand) ([]*taskSpec, []string) {
 		specs = append(specs, s)
 		tags = append(tags, "random")
 	}
+	// a task with NO commands, with every number of variations and with hooks around the nothing it runs
+	for _, vars := range []int{-1, 0, 1, 2, 3} {
+		for h := 0; h < 3; h++ {
+			s := &taskSpec{nCmds: 0, vars: vars, res: nil, newTask: h%2 == 0, allow: h == 2}
+			if h >= 1 {
+				s.before, s.after = []cmdRes{okR}, []cmdRes{okR, okR}
+			}
+			if h == 2 {
+				s.cond = &okR
+			}
+			specs = append(specs, s)
+			tags = append(tags, "no-commands")
+		}
+	}
 	return specs, tags
 }
 
@@ -849,6 +864,14 @@ func conditionHistoryCases(col *Collector) {
 // C07 over a history: what a task reports after a run is the outcome of THAT run - one task object run four
 // times on one runner: failing (exit 3), succeeding, skipped by its condition, succeeding again
 func statusHistoryCases(col *Collector) {
+	for _, via := range []string{"direct", "stage", "mixed"} {
+		statusHistoryCasesVia(col, via)
+	}
+}
+
+// via: every run is a direct Run of the task ("direct"), the only stage of a pipeline scheduled on the same runner
+// ("stage": the outcome travels from the stage's private copy back to the task), or alternately one and the other
+func statusHistoryCasesVia(col *Collector, via string) {
 	for _, allow := range []bool{false, true} {
 		trace := newTracePath()
 		fail, skip := trace+".fail", trace+".skip"
@@ -857,7 +880,8 @@ func statusHistoryCases(col *Collector) {
 		t.AllowFailure = allow
 		t.Condition = fmt.Sprintf("test ! -f %s", skip)
 		t.Commands = []string{fmt.Sprintf("echo c1 >> %s", trace), fmt.Sprintf("if [ -f %s ]; then exit 3; fi", fail), fmt.Sprintf("echo c3 >> %s", trace)}
-		cs := Case{Replay: fmt.Sprintf("one task run twelve times on one runner (fail = second command exits 3, skip = condition false): fail skip ok skip fail fail ok ok skip skip ok fail; allow_failure=%v", allow), Tags: []string{"status-history"}, NonTrivial: true}
+		cs := Case{Replay: fmt.Sprintf("one task run twelve times on one runner (fail = second command exits 3, skip = condition false): fail skip ok skip fail fail ok ok skip skip ok fail; allow_failure=%v; each run %s", allow,
+			map[string]string{"direct": "a direct Run", "stage": "as the only stage of a pipeline", "mixed": "alternately a direct Run and the only stage of a pipeline"}[via]), Tags: []string{"status-history", "via=" + via}, NonTrivial: true}
 		r, err := runner.NewTaskRunner()
 		if err != nil {
 			cs.Fail, cs.Sig = err.Error(), "runner-panic"
@@ -878,7 +902,19 @@ func statusHistoryCases(col *Collector) {
 			case "skip":
 				os.WriteFile(skip, nil, 0644)
 			}
-			err := r.Run(t)
+			var err error
+			if via == "stage" || (via == "mixed" && i%2 == 1) {
+				g, gerr := scheduler.NewExecutionGraph(&scheduler.Stage{Name: "only", Task: t})
+				if gerr != nil {
+					cs.Fail, cs.Sig = gerr.Error(), "runner-panic"
+					break
+				}
+				sd := scheduler.NewScheduler(r)
+				sd.VerifSetPause(time.Millisecond)
+				err = sd.Schedule(g)
+			} else {
+				err = r.Run(t)
+			}
 			lastExit := prevExit
 			got = append(got, fmt.Sprintf("%d:%s err=%v errored=%v skipped=%v exit=%d", i, strings.Join(readTrace(trace), ","), err != nil, t.Errored, t.Skipped, t.ExitCode))
 			prevExit = int(t.ExitCode)
@@ -896,7 +932,7 @@ func statusHistoryCases(col *Collector) {
 		os.Remove(skip)
 		os.Remove(trace)
 		cs.Impl = strings.Join(got, " | ")
-		if cs.Impl != strings.Join(want, " | ") {
+		if cs.Fail == "" && cs.Impl != strings.Join(want, " | ") {
 			cs.Fail, cs.Sig = fmt.Sprintf("runs reported %s, expected %s", cs.Impl, strings.Join(want, " | ")), "c07-stale-status"
 		}
 		col.Add(cs)
